@@ -1009,15 +1009,27 @@ class MonC13(object):
     prop = "C13"
 
     def __init__(self):
-        self.loc = {}          # component -> last non-None location (from recorded of prev step)
-        self.moves = {}        # component -> moves in this step
-        self.recent = []       # recent placed_workplace writes in this step: (comp, new)
+        self.loc = {}          # component -> last non-None location
+        self.moves = {}        # component -> list of move kinds ('own' / 'drag') in this step
+        self.recent = []       # placed_workplace writes in this step: (comp, new)
+        self.last_kind = {}    # component -> kind of its last move
+        self.split = set()     # ids of components of assemblies that were split across workplaces
+        self.prev_loc = {}
+
+    def _mark_split(self, obj):
+        for x in [obj] + ancestors(obj) + descendants(obj):
+            self.split.add(id(x))
+
+    def is_split(self, c):
+        return id(c) in self.split
 
     def on_write(self, tr, obj, attr, old, new):
         if attr != "placed_workplace" or not isinstance(obj, ns.BaseComponent):
             return
         if tr.in_init:
             self.loc.pop(obj, None)
+            self.last_kind.pop(obj, None)
+            self.split.discard(id(obj))
             return
         self.recent.append((obj, new))
         if new is None:
@@ -1027,26 +1039,41 @@ class MonC13(object):
         if src is new:
             return
         # a move (or first placement) of obj into `new`
+        dragged = self._dragged(obj, new)
+        kind = "drag" if dragged else "own"
+        nested = bool(obj.parent_component_list or obj.child_component_list)
+        if nested and not dragged:
+            for x in ancestors(obj) + descendants(obj):
+                lx = x.placed_workplace
+                if lx is not None and lx is not new:
+                    self._mark_split(obj)
+                    break
+        if nested and dragged:
+            # dragged from a place other than where the dragging ancestor came from
+            for a in ancestors(obj):
+                if self.prev_loc.get(a, None) is not src and src is not None:
+                    self._mark_split(obj)
+                    break
+        self.prev_loc[obj] = src
         self.loc[obj] = new
-        self.moves[obj] = self.moves.get(obj, 0) + 1
+        self.moves.setdefault(obj, []).append(kind)
+        self.last_kind[obj] = kind
         tr.counters["C13.moves"] += 1
+        tr.counters["C13.moves." + kind] += 1
         if src is None:
             tr.counters["C13.first_placements"] += 1
-        dragged = self._dragged(obj, new)
         own_busy = any(t.state == TS.WORKING for t in obj.targeted_task_list)
-        own_holding = any(t.state == TS.READY and len(t.allocated_worker_list) > 0 for t in obj.targeted_task_list)
-        sub_busy = any(t.state == TS.WORKING or len(t.allocated_worker_list) > 0 for d in descendants(obj) for t in d.targeted_task_list)
-        ctx = "dragged-by-ancestor" if dragged else ("own-task-holds-resources" if own_holding else "direct")
-        if self.moves[obj] > 1:
-            tr.violate("C13", "C13/moved-twice-in-step:" + ctx,
-                       "step %s: component %s moved %d times in one step (now to %s)" % (tr.step, obj.ID, self.moves[obj], new.ID), comp=obj)
-        if len(new.input_workplace_list) > 0 and src is not None and not any(x is src for x in new.input_workplace_list):
-            tr.violate("C13", "C13/conveyor-bypass:" + ctx,
-                       "step %s: component %s entered %s from %s which is not one of its input workplaces" % (tr.step, obj.ID, new.ID, src.ID), comp=obj)
+        if len(self.moves[obj]) > 1:
+            ctx = ":with-ancestor-drag" if "drag" in self.moves[obj] else ""
+            tr.violate("C13", "C13/moved-twice-in-step" + ctx,
+                       "step %s: component %s moved %d times in one step %s (now to %s)" % (tr.step, obj.ID, len(self.moves[obj]), self.moves[obj], new.ID), comp=obj)
         if len(new.input_workplace_list) > 0:
             tr.counters["C13.conveyor_entries"] += 1
+            if src is not None and not any(x is src for x in new.input_workplace_list):
+                tr.violate("C13", "C13/conveyor-bypass" + (":dragged-by-ancestor" if dragged else ""),
+                           "step %s: component %s entered %s from %s which is not one of its input workplaces" % (tr.step, obj.ID, new.ID, src.ID), comp=obj)
         if own_busy:
-            tr.violate("C13", "C13/moved-while-working:" + ctx,
+            tr.violate("C13", "C13/moved-while-working" + (":dragged-by-ancestor" if dragged else ""),
                        "step %s: component %s moved to %s while one of its tasks is WORKING" % (tr.step, obj.ID, new.ID), comp=obj)
 
     def _dragged(self, obj, new):
@@ -1072,6 +1099,12 @@ class MonC13(object):
         if phase == "recorded":
             self.moves = {}
             self.recent = []
+        # a component that reports no place at a quiescent point is nowhere: a later placement
+        # comes "from nowhere" (the code's own "set None, then set the new place" happens between
+        # two phases and is therefore still seen as one move from the old place)
+        for c, wp in snap.cplace.items():
+            if wp is None:
+                self.loc.pop(c, None)
         if phase in ("allocated", "recorded", "updated"):
             tr.counters["C13.phase_checks"] += 1
             where = {}
@@ -1080,18 +1113,18 @@ class MonC13(object):
                     where.setdefault(c, []).append(wp)
             for c, wps in where.items():
                 if len(wps) > 1:
-                    nested = bool(c.parent_component_list or c.child_component_list)
-                    tr.violate("C13", "C13/listed-by-two-workplaces" + (":nested" if nested else ""),
+                    nested = self.is_split(c)
+                    tr.violate("C13", "C13/listed-by-two-workplaces" + (":assembly-split" if nested else ""),
                                "%s step %d: component %s listed by %s" % (phase, snap.step, c.ID, [w.ID for w in wps]), comp=c)
             for c, wp in snap.cplace.items():
                 listed = where.get(c, [])
                 if wp is None and listed:
-                    nested = bool(c.parent_component_list or c.child_component_list)
-                    tr.violate("C13", "C13/two-way-mismatch" + (":nested" if nested else ""),
+                    nested = self.is_split(c)
+                    tr.violate("C13", "C13/two-way-mismatch" + (":assembly-split" if nested else ""),
                                "%s step %d: component %s reports no place but is listed by %s" % (phase, snap.step, c.ID, [w.ID for w in listed]), comp=c)
                 if wp is not None and not any(x is wp for x in listed):
-                    nested = bool(c.parent_component_list or c.child_component_list)
-                    tr.violate("C13", "C13/two-way-mismatch" + (":nested" if nested else ""),
+                    nested = self.is_split(c)
+                    tr.violate("C13", "C13/two-way-mismatch" + (":assembly-split" if nested else ""),
                                "%s step %d: component %s reports %s but that workplace does not list it" % (phase, snap.step, c.ID, wp.ID), comp=c)
             for wp, cs in snap.wpcontent.items():
                 inset = set(map(id, cs))
@@ -1122,9 +1155,12 @@ class MonC13(object):
                     tr.counters["C13.site_checks"] += 1
                     fw = workplace_of(project, f)
                     if fw is not wp:
-                        nested = bool(c is not None and (c.parent_component_list or c.child_component_list))
-                        multi = bool(c is not None and len(c.targeted_task_list) > 1)
-                        mech = "C13/site-mismatch" + (":nested" if nested else (":multi-task-component" if multi else ""))
+                        dragged = c is not None and self.last_kind.get(c) == "drag"
+                        mech = "C13/site-mismatch" + (":component-dragged-by-ancestor" if dragged else (":assembly-split" if (c is not None and self.is_split(c)) else ""))
+                        if wp is None and c is not None and c.parent_component_list:
+                            tops = [a for a in ancestors(c) if not a.parent_component_list]
+                            if any(a.targeted_task_list and all(x.state == TS.FINISHED for x in a.targeted_task_list) for a in tops):
+                                mech = "C13/site-mismatch:removed-with-finished-top-level-ancestor"
                         tr.violate("C13", mech,
                                    "%s step %d: task %s works with facility %s of %s but its component %s is at %s" % (
                                        phase, snap.step, t.ID, f.ID, getattr(fw, "ID", None), getattr(c, "ID", None), getattr(wp, "ID", None)), task=t, comp=c)
@@ -1143,12 +1179,12 @@ class MonC13(object):
                 tr.counters["C13.log_checks"] += 1
                 rec = c.placed_workplace_id_record[k]
                 ls = listed.get(c.ID, [])
-                nested = bool(c.parent_component_list or c.child_component_list)
+                nested = self.is_split(c)
                 if len(ls) > 1:
-                    tr.violate("C13", "C13/listed-by-two-workplaces" + (":nested" if nested else ""),
+                    tr.violate("C13", "C13/listed-by-two-workplaces" + (":assembly-split" if nested else ""),
                                "log step %d: component %s listed by %s" % (k, c.ID, ls), comp=c, k=k)
                 elif (rec is None) != (not ls) or (rec is not None and ls and ls[0] != rec):
-                    tr.violate("C13", "C13/two-way-mismatch" + (":nested" if nested else ""),
+                    tr.violate("C13", "C13/two-way-mismatch" + (":assembly-split" if nested else ""),
                                "log step %d: component %s logged at %r, listed by %r" % (k, c.ID, rec, ls), comp=c, k=k)
 
 
